@@ -140,185 +140,177 @@ def finishOneof (ops : List PropDef)
 
 def anyPrefixB : Bytes := ascii "type.googleapis.com/"
 
+def pathErr : String := "Reflection Bug: no proto field and not a oneof"
+
+/-- `decodeScalar(prop)` -/
+def decScalarProp (c : Cfg) (props : List PropDef) (p : PropDef) (k : ScalarKind) (t : PTree)
+    (st : PS) : Outcome PS :=
+  match t with
+  | .bad => .err "token"
+  | .raw _ => .err "token"
+  | .null => .ok st
+  | _ =>
+    (createField p st).bind fun st1 =>
+      if p.path.isEmpty then .err pathErr else
+      match goTok t with
+      | none => .err "unexpected token, expected scalar"
+      | some tok =>
+        (decodeScalar c.O k tok).bind fun v => .ok { st1 with m := updPath props p v st1.m }
+
+/-- `decodeEnum(prop)` -/
+def decEnumProp (c : Cfg) (props : List PropDef) (p : PropDef) (ref : String) (t : PTree)
+    (st : PS) : Outcome PS :=
+  match t with
+  | .bad => .err "token"
+  | .raw _ => .err "token"
+  | .null => .ok st
+  | _ =>
+    (createField p st).bind fun st1 =>
+      if p.path.isEmpty then .err pathErr else
+      match t, c.env.find ref with
+      | .str s _, some (.enum pfx opts) =>
+        match enumOptionByName pfx opts s with
+        | some n => .ok { st1 with m := updPath props p (some (.enum n)) st1.m }
+        | none => .err "enum value not found"
+      | _, _ => .err "unexpected token, expected string"
+
+/-- the message a nested object / wrapper oneof is decoded into (`Mutable` of the field) -/
+def subStart (p : PropDef) (st1 : PS) : PS := { m := PVal.asMsg (getPath st1.m p.path), seen := [] }
+
+/-- tail of `decodeObjectProperty` after the member loop -/
+def finishObjectProp (props : List PropDef) (p : PropDef) (st1 : PS) (r : Outcome (PS × Term)) :
+    Outcome PS :=
+  r.bind fun (r, term) =>
+    if closeOk term then .ok { st1 with m := updPath props p (some (.msg r.m)) st1.m }
+    else .err "token"
+
+/-- an exposed oneof (empty path) is a view of the same message -/
+def oneofStart (p : PropDef) (st1 : PS) : PS :=
+  { m := if p.path.isEmpty then st1.m else PVal.asMsg (getPath st1.m p.path), seen := [] }
+
+/-- tail of `decodeOneofProperty` after the member loop: post-checks, closer, store -/
+def finishOneofProp (ops props : List PropDef) (p : PropDef) (st1 : PS)
+    (r : Outcome (PS × List Bytes × Option Bytes × Term)) : Outcome PS :=
+  r.bind fun (r, found, ct, term) =>
+    if term == .errIn then .err "token" else
+    (oneofPost ops found ct).bind fun tp =>
+      if closeOk term then
+        let rm := applyPost ops tp r.m
+        .ok { st1 with m := if p.path.isEmpty then rm else updPath props p (some (.msg rm)) st1.m }
+      else .err "token"
+
+/-- tail of `decodeAny` after the member loop -/
+def finishAnyProp (c : Cfg) (props : List PropDef) (p : PropDef) (pb : Bool) (st1 : PS)
+    (r : Outcome (AnyAcc × Term)) : Outcome PS :=
+  r.bind fun (acc, term) =>
+    if term == .errIn then .err "token" else
+    match acc.ct, acc.valueBytes with
+    | none, _ => .err "no type found in Any"
+    | some _, none => .err "no value found in Any"
+    | some tn, some vb =>
+      (if c.protoToAny then acc.inner else .ok none).bind fun inner =>
+        let (ik, iroot, ival) : InnerKind × String × PVal :=
+          match inner with
+          | some (r, fs) => if fs.isEmpty then (.none, "", .msg []) else (.inn, r, .msg fs)
+          | none => (.none, "", .msg [])
+        if pb then
+          -- pbAnyImpl.setAny: "proto is required"
+          if inner.isNone then .err "proto is required for PB Any type"
+          else if closeOk term then
+            let av : PVal := .anyPb (anyPrefixB ++ tn) [] ik iroot ival
+            .ok { st1 with m := updPath props p (some av) st1.m }
+          else .err "token"
+        else if closeOk term then
+          .ok { st1 with m := updPath props p (some (.anyJ5 tn [] vb ik iroot ival)) st1.m }
+        else .err "token"
+
+/-- `buildProperty` for an array / map: which item schemas `newLeaf…Field` / `newMessage…Field` /
+`newFieldFactory` accept -/
+def itemCheck (item : Field) : Outcome Unit :=
+  match item with
+  | .array _ => .panic "invalid schema for leaf field"
+  | .map _ => .panic "invalid schema for leaf field"
+  | .any _ => .err "unsupported item schema"
+  | _ => .ok ()
+
+def listStart (p : PropDef) (st1 : PS) : List PVal :=
+  match getPath st1.m p.path with
+  | some (.list l) => l
+  | _ => []
+
+def mapStart (p : PropDef) (st1 : PS) : List (Bytes × PVal) :=
+  match getPath st1.m p.path with
+  | some (.map l) => l
+  | _ => []
+
+def finishArrayProp (props : List PropDef) (p : PropDef) (st1 : PS)
+    (r : Outcome (List PVal × Term)) : Outcome PS :=
+  r.bind fun (l, term) =>
+    if closeOk term then .ok { st1 with m := updPath props p (some (.list l)) st1.m }
+    else .err "token"
+
+def finishMapProp (props : List PropDef) (p : PropDef) (st1 : PS)
+    (r : Outcome (List (Bytes × PVal) × Term)) : Outcome PS :=
+  r.bind fun (l, term) =>
+    if closeOk term then .ok { st1 with m := updPath props p (some (.map l)) st1.m }
+    else .err "token"
+
 mutual
 /-- `decodeValue(prop)` for property `p` of the property set `props`, at tree `t` -/
 def decProp (c : Cfg) (props : List PropDef) (p : PropDef) (t : PTree) (st : PS) : Outcome PS :=
   match p.field with
-  | .scalar k =>
-    -- decodeScalar
-    match t with
-    | .bad => .err "token"
-    | .raw _ => .err "token"
-    | .null => .ok st
-    | _ =>
-      match createField p st with
-      | .ok st1 =>
-        if p.path.isEmpty then .err "Reflection Bug: no proto field and not a oneof" else
-        match goTok t with
-        | none => .err "unexpected token, expected scalar"
-        | some tok =>
-          match decodeScalar c.O k tok with
-          | .ok v => .ok { st1 with m := updPath props p v st1.m }
-          | .err e => .err e
-          | .panic w => .panic w
-      | .err e => .err e
-      | .panic w => .panic w
-  | .enum ref =>
-    -- decodeEnum
-    match t with
-    | .bad => .err "token"
-    | .raw _ => .err "token"
-    | .null => .ok st
-    | _ =>
-      match createField p st with
-      | .ok st1 =>
-        if p.path.isEmpty then .err "Reflection Bug: no proto field and not a oneof" else
-        match t, c.env.find ref with
-        | .str s _, some (.enum pfx opts) =>
-          match enumOptionByName pfx opts s with
-          | some n => .ok { st1 with m := updPath props p (some (.enum n)) st1.m }
-          | none => .err "enum value not found"
-        | _, _ => .err "unexpected token, expected string"
-      | .err e => .err e
-      | .panic w => .panic w
+  | .scalar k => decScalarProp c props p k t st
+  | .enum ref => decEnumProp c props p ref t st
   | .object ref =>
     -- decodeObjectProperty
     match t with
     | .null => .ok st
     | .obj ms =>
-      match createField p st with
-      | .ok st1 =>
-        if p.path.isEmpty then .err "Reflection Bug: no proto field and not a oneof" else
+      (createField p st).bind fun st1 =>
+        if p.path.isEmpty then .err pathErr else
         match c.env.find ref with
-        | some (.object sub) =>
-          match decObjMembers c sub ms { m := PVal.asMsg (getPath st1.m p.path), seen := [] } with
-          | .ok (r, term) =>
-            if closeOk term then .ok { st1 with m := updPath props p (some (.msg r.m)) st1.m }
-            else .err "token"
-          | .err e => .err e
-          | .panic w => .panic w
+        | some (.object sub) => finishObjectProp props p st1 (decObjMembers c sub ms (subStart p st1))
         | _ => .err "object ref"
-      | .err e => .err e
-      | .panic w => .panic w
     | _ => .err "unexpected token, expected {"
   | .oneof ref =>
     -- decodeOneofProperty
     match t with
     | .null => .ok st
     | .obj ms =>
-      match createField p st with
-      | .ok st1 =>
+      (createField p st).bind fun st1 =>
         match c.env.find ref with
         | some (.oneof ops) =>
-          -- an exposed oneof (empty path) is a view of the same message
-          let start : Fields := if p.path.isEmpty then st1.m else PVal.asMsg (getPath st1.m p.path)
-          match decOneofMembers c ops ms { m := start, seen := [] } [] none with
-          | .ok (r, found, ct, term) =>
-            if term == .errIn then .err "token" else
-            match oneofPost ops found ct with
-            | .ok tp =>
-              if closeOk term then
-                let rm := applyPost ops tp r.m
-                .ok { st1 with m := if p.path.isEmpty then rm
-                                    else updPath props p (some (.msg rm)) st1.m }
-              else .err "token"
-            | .err e => .err e
-            | .panic w => .panic w
-          | .err e => .err e
-          | .panic w => .panic w
+          finishOneofProp ops props p st1 (decOneofMembers c ops ms (oneofStart p st1) [] none)
         | _ => .err "oneof ref"
-      | .err e => .err e
-      | .panic w => .panic w
     | _ => .err "unexpected token, expected {"
   | .any pb =>
     -- decodeAny
     match t with
     | .null => .ok st
     | .obj ms =>
-      match createField p st with
-      | .ok st1 =>
-        if p.path.isEmpty then .err "Reflection Bug: no proto field and not a oneof" else
-        match decAnyMembers c (finalType ms none) ms {} with
-        | .ok (acc, term) =>
-          if term == .errIn then .err "token" else
-          match acc.ct, acc.valueBytes with
-          | none, _ => .err "no type found in Any"
-          | some _, none => .err "no value found in Any"
-          | some tn, some vb =>
-            let innerRes : Outcome (Option (String × Fields)) :=
-              if c.protoToAny then acc.inner else .ok none
-            match innerRes with
-            | .ok inner =>
-              let (ik, iroot, ival) : InnerKind × String × PVal :=
-                match inner with
-                | some (r, fs) => if fs.isEmpty then (.none, "", .msg []) else (.inn, r, .msg fs)
-                | none => (.none, "", .msg [])
-              if pb then
-                -- pbAnyImpl.setAny: "proto is required"
-                if inner.isNone then .err "proto is required for PB Any type"
-                else if closeOk term then
-                  let av : PVal := .anyPb (anyPrefixB ++ tn) [] ik iroot ival
-                  .ok { st1 with m := updPath props p (some av) st1.m }
-                else .err "token"
-              else if closeOk term then
-                .ok { st1 with m := updPath props p (some (.anyJ5 tn [] vb ik iroot ival)) st1.m }
-              else .err "token"
-            | .err e => .err e
-            | .panic w => .panic w
-        | .err e => .err e
-        | .panic w => .panic w
-      | .err e => .err e
-      | .panic w => .panic w
+      (createField p st).bind fun st1 =>
+        if p.path.isEmpty then .err pathErr else
+        finishAnyProp c props p pb st1 (decAnyMembers c (finalType ms none) ms {})
     | _ => .err "unexpected token, expected {"
   | .array item =>
     -- decodeArrayProperty
     match t with
     | .null => .ok st
     | .arr xs =>
-      match createField p st with
-      | .ok st1 =>
-        if p.path.isEmpty then .err "Reflection Bug: no proto field and not a oneof" else
-        match item with
-        | .array _ => .panic "invalid schema for leaf field"
-        | .map _ => .panic "invalid schema for leaf field"
-        | .any _ => .err "unsupported array item schema"
-        | _ =>
-          let existing : List PVal := match getPath st1.m p.path with
-            | some (.list l) => l
-            | _ => []
-          match decElems c item xs existing with
-          | .ok (l, term) =>
-            if closeOk term then .ok { st1 with m := updPath props p (some (.list l)) st1.m }
-            else .err "token"
-          | .err e => .err e
-          | .panic w => .panic w
-      | .err e => .err e
-      | .panic w => .panic w
+      (createField p st).bind fun st1 =>
+        if p.path.isEmpty then .err pathErr else
+        (itemCheck item).bind fun _ =>
+          finishArrayProp props p st1 (decElems c item xs (listStart p st1))
     | _ => .err "unexpected token, expected ["
   | .map item =>
     -- decodeMapProperty
     match t with
     | .null => .ok st
     | .obj ms =>
-      match createField p st with
-      | .ok st1 =>
-        if p.path.isEmpty then .err "Reflection Bug: no proto field and not a oneof" else
-        match item with
-        | .array _ => .panic "invalid schema for leaf field"
-        | .map _ => .panic "invalid schema for leaf field"
-        | .any _ => .err "unsupported schema type"
-        | _ =>
-          let existing : List (Bytes × PVal) := match getPath st1.m p.path with
-            | some (.map l) => l
-            | _ => []
-          match decMapMembers c item ms existing with
-          | .ok (l, term) =>
-            if closeOk term then .ok { st1 with m := updPath props p (some (.map l)) st1.m }
-            else .err "token"
-          | .err e => .err e
-          | .panic w => .panic w
-      | .err e => .err e
-      | .panic w => .panic w
+      (createField p st).bind fun st1 =>
+        if p.path.isEmpty then .err pathErr else
+        (itemCheck item).bind fun _ =>
+          finishMapProp props p st1 (decMapMembers c item ms (mapStart p st1))
     | _ => .err "unexpected token, expected {"
 
 /-- `decodeObjectInner`: the `jsonObjectBody` loop over the members of an object -/
